@@ -141,7 +141,7 @@ function classify (resp) {
 
 function runBatch (reqs, hopts) {
   // one rewriter per distinct config
-  const h = new Harness(hopts)
+  const h = new Harness(Object.assign({ maxTimeouts: 3 }, hopts)) // a shard whose requests keep hanging is abandoned after the fourth watchdog firing (the rest: inconclusive)
   const lines = []
   const cfgIds = new Map()
   const idx = []
@@ -179,10 +179,13 @@ function judge (req, resp, profile, rep, bump) {
     const first = (st.match(/ERROR: (AddressSanitizer|LeakSanitizer): [^\n]*/) || [])[0] || ''
     rep.violations.push({ sig: san ? `sanitizer:${clip(first.replace(/0x[0-9a-f]+/g, 'ADDR').replace(/\d+/g, 'N'), 90)}` : `abort:${resp.abort.signal || 'status' + resp.abort.status}`, what: `harness process died during a rewrite (${profile}): signal=${resp.abort.signal} status=${resp.abort.status} ${clip(st, 600)}`, witness })
   } else if (c === 'timeout') {
+    // two confirmed hang witnesses per shard are enough: further watchdog firings of the shard are not escalated again
+    rep.hangsConfirmed = rep.hangsConfirmed || 0
+    if (rep.hangsConfirmed >= 2) { bump('timeouts_not_escalated_after_two_witnesses'); rep.inconclusive.push({ reason: 'batch-watchdog-not-escalated', detail: req.meta.kind }); return }
     // escalate: re-run alone with a generous budget; only a repeated non-return is a hang witness
     const h = new Harness({ profile: profile === 'memcheck' ? 'release' : profile, batchTimeoutMs: HANG_BUDGET_MS })
     const again = h.run([{ op: 'new', rw: 'r', config: req.config }, { op: 'rewrite', rw: 'r', code: req.code, file: req.file, reader: req.reader }])[1]
-    if (classify(again) === 'timeout') rep.violations.push({ sig: `hang:${req.meta.kind}`, what: `rewrite did not return within ${HANG_BUDGET_MS} ms when re-run alone (input ${req.code.length} chars)`, witness })
+    if (classify(again) === 'timeout') { rep.hangsConfirmed++; rep.violations.push({ sig: `hang:${req.meta.kind}`, what: `rewrite did not return within ${HANG_BUDGET_MS} ms when re-run alone (input ${req.code.length} chars)`, witness }) }
     else { bump('timeouts_not_reproduced'); rep.inconclusive.push({ reason: 'batch-watchdog', detail: req.meta.kind }); judge(req, again, profile, rep, () => {}) }
   } else if (c === 'err') {
     if (typeof resp.err !== 'string' || !resp.err.trim()) rep.violations.push({ sig: 'error-without-diagnostic', what: 'rewrite returned an error value with an empty diagnostic', witness })
